@@ -9,7 +9,15 @@
    business.  Equality of the result with the stand-alone quantization of each
    extracted subgraph is checked end to end by the C19 oracle. *)
 From VF Require Import Base.Prelude Gen.Enums Model.Graph Gen.InstChecks Model.Insts
-     Model.Perform Spec.WF Proofs.ListFacts Proofs.PerformStep Proofs.ModeProofs Proofs.LocalProofs.
+     Model.Perform Spec.WF Proofs.ListFacts Proofs.PerformStep Proofs.ModeProofs Proofs.LocalProofs
+     Proofs.AloneProofs.
+
+Definition ex_t0 (r : Z) : tensor :=
+  {| t_root := r; t_sfx := []; t_shape := 0; t_ty := TY_FLOAT32; t_buf := 1; t_q := None |}.
+Definition ex_sg_named (r : Z) : subgraph :=
+  {| sg_tensors := [ex_t0 r; ex_t0 (r + 1)];
+     sg_ops := [{| o_code := 0; o_ins := [0]; o_outs := [1]; o_uid := 0 |}];
+     sg_inputs := [0]; sg_outputs := [1] |}.
 
 Theorem C19_step_is_local_to_its_subgraph :
   forall st sgid i later st' later',
@@ -53,6 +61,68 @@ Theorem C19_tensor_info_depends_on_own_subgraph_only :
        gi_consumers := if memZ t (sg_outputs g) then -1 :: consumers_of g t else consumers_of g t |}.
 Proof. reflexivity. Qed.
 Print Assumptions C19_tensor_info_depends_on_own_subgraph_only.
+
+(* ---- whole runs: "as if it stood alone" (Proofs/AloneProofs.v) ----
+   [same_subgraph_result k1 k2 m1 m2]: subgraph k1 of m1 and subgraph k2 of m2
+   have the same tensors (names, shapes, dtypes, buffers, parameters), the
+   same inputs/outputs, pointwise the same operators (operands, results,
+   options, and the same BUILTIN code when the opcode index is read through
+   the respective opcode table), and their signatures list the same tensors.
+   Proved by a simulation: the performer's work on subgraph k is a function
+   of that subgraph, its op-id maps, its signatures, the number of buffers
+   and its own instructions; steps on other subgraphs only append to the
+   shared opcode table. *)
+Theorem C19_result_depends_on_own_instructions_only :
+  forall m tis m1 k g,
+    nth_opt (m_subgraphs m) k = Some g -> codes_in_range (m_opcodes m) g ->
+    Forall (fun ti => 0 <= ti_sg ti) tis ->
+    transform_graph m tis = Ok m1 ->
+    exists m2, transform_graph m (filter (own k) tis) = Ok m2 /\ same_subgraph_result k k m1 m2.
+Proof. exact transform_graph_own_instructions. Qed.
+Print Assumptions C19_result_depends_on_own_instructions_only.
+
+(* the model that consists of subgraph k alone (same buffers and opcode
+   table, k's signatures re-pointed to subgraph 0), given k's instructions *)
+Theorem C19_subgraph_transformed_as_if_it_stood_alone :
+  forall m tis m1 k g,
+    nth_opt (m_subgraphs m) k = Some g -> codes_in_range (m_opcodes m) g ->
+    Forall (fun ti => 0 <= ti_sg ti) tis ->
+    transform_graph m tis = Ok m1 ->
+    exists m2, transform_graph (alone m k g) (map (retarget 0) (filter (own k) tis)) = Ok m2 /\
+               same_subgraph_result k 0 m1 m2.
+Proof. exact transform_graph_alone. Qed.
+Print Assumptions C19_subgraph_transformed_as_if_it_stood_alone.
+
+(* the step-level facts behind it, for ANY two states that agree on the subgraph *)
+Theorem C19_same_instruction_same_effect :
+  forall k1 k2 s1 s2 i later s1' later1,
+    sim k1 k2 s1 s2 -> apply_single s1 (Z.of_nat k1) i later = Ok (s1', later1) ->
+    exists s2', apply_single s2 (Z.of_nat k2) i later = Ok (s2', later1) /\ sim k1 k2 s1' s2'.
+Proof. exact apply_single_sim. Qed.
+Print Assumptions C19_same_instruction_same_effect.
+
+Theorem C19_other_subgraphs_steps_are_invisible :
+  forall k1 k2 s1 s2 sg i later s1' later',
+    sim k1 k2 s1 s2 -> 0 <= sg -> Z.to_nat sg <> k1 ->
+    apply_single s1 sg i later = Ok (s1', later') -> sim k1 k2 s1' s2.
+Proof. exact apply_single_frame. Qed.
+Print Assumptions C19_other_subgraphs_steps_are_invisible.
+
+(* non-vacuity of the composition: a two-subgraph model, one QUANTIZE inserted
+   in each; subgraph 1 of the result is what the stand-alone run produces *)
+Example C19_alone_nonvacuous :
+  let g0 := ex_sg_named 0 in let g1 := ex_sg_named 2 in
+  let m := {| m_subgraphs := [g0; g1]; m_buffers := [BEmpty; BEmpty]; m_opcodes := [0]; m_sigs := [] |} in
+  let ins := {| i_trans := Tr_ADD_QUANTIZE; i_tensor := 0; i_producer := -1; i_consumers := [0];
+                i_params := Some {| qp_id := 0; qp_uniform := true; qp_bits := 8; qp_has_data := false |} |} in
+  let tis := [{| ti_name := (0, []); ti_sg := 0; ti_insts := [ins] |};
+              {| ti_name := (2, []); ti_sg := 1; ti_insts := [ins] |}] in
+  match transform_graph m tis, transform_graph (alone m 1 g1) (map (retarget 0) (filter (own 1) tis)) with
+  | Ok m1, Ok m2 =>
+      option_map sg_tensors (nth_opt (m_subgraphs m1) 1) = option_map sg_tensors (nth_opt (m_subgraphs m2) 0) /\
+      option_map (fun g => length (sg_ops g)) (nth_opt (m_subgraphs m1) 1) = Some 2%nat
+  | _, _ => False end.
+Proof. vm_compute. split; reflexivity. Qed.
 
 (* without the uniqueness contract the map is NOT per subgraph: two subgraphs
    with a tensor of the same name — the second one wins for both *)
